@@ -572,6 +572,29 @@ theorem bridge_isDeleted (e : IEnt) :
     · exact Or.inr h
     · exact Or.inr (by omega)
 
+/-- The vacuum TTL filter never removes a record whose (client-supplied) LastModified lies AHEAD of
+    the clock the compaction samples — whatever the volume TTL, the needle TTL and the append time:
+    `LastModified + ttl ≤ now` cannot hold.  (An age computed as the unsigned difference
+    `now - LastModified` would wrap and declare such a blob expired.) -/
+theorem lm_ahead_of_clock_not_filtered (s : CVol) (nowSec : Nat) (r : Rec) (a : Nat) (h : nowSec < r.c.lm) :
+    dropsTtl s nowSec r a = false := by
+  simp only [dropsTtl, SwV.Model.C09.vacuumDrops, needleOf, Bool.and_eq_false_iff]
+  exact Or.inr (decide_eq_false (by omega))
+
+/-- hence the judge's "removed by the TTL filter" class predicate is false for such a blob: if the
+    commit makes it unreadable, the judge reports an unrecorded class -/
+theorem lm_ahead_of_clock_not_ttlDropped (pre : CVol) (nowSec id : Nat) (r : Rec) (a : Nat)
+    (hl : liveRec pre id = some (r, a)) (h : nowSec < r.c.lm) : ttlDropped pre nowSec id = false := by
+  simp only [ttlDropped, hl, lm_ahead_of_clock_not_filtered pre nowSec r a h, Bool.and_false]
+
+/-- non-vacuity: a 1-hour TTL volume, a blob stamped 5 s ahead of the clock: kept by both algorithms, readable after the commit -/
+example :
+    let c : Content := { Content.empty with data := "78", fl := { Content.empty.fl with hasLm := true }, lm := 1005 }
+    let s0 := (opStep (CVol.init .mem (1, 2)) 1000000000000 (.write 1 7 c)).1
+    (∀ alg ∈ [1, 2], (keepOf s0 alg 1000).length = 1 ∧
+      (view (afterCommit s0 alg 1000 [] [] 1001000000000) 1002000000000 1).isSome = true) ∧
+    (liveRec s0 1).isSome = true := by decide
+
 theorem bridge_sources :
     SwV.Gen.C04.src_Compact = "90495a2118886275" ∧ SwV.Gen.C04.src_Compact2 = "e70b46c9bcaa8dc1" ∧
     SwV.Gen.C04.src_CommitCompact = "7f99dd45edb5a3be" ∧ SwV.Gen.C04.src_makeupDiff = "a55a493df66118bc" ∧
